@@ -205,6 +205,8 @@ HEADER = ["(* generated from auditok/core.py, io.py, util.py - do not edit *)",
 GROUPS = {
     # group -> (generated file, tie file, tie lemmas)
     "split": ("GenSplit.v", "TieSplit.v", ["tie_split_params", "tie_split_params_reader"]),
+    "fsrc": ("GenFsrc.v", "TieFsrc.v", ["tie_raw_read", "tie_wave_read", "tie_stdin_read"]),
+    "algebra": ("GenAlgebra.v", "TieAlgebra.v", ["tie_check_params", "tie_add", "tie_mul", "tie_eq", "tie_len"]),
     "dur": ("GenDur.v", "TieDur.v", ["tie_epsilon", "tie_nbw_floor", "tie_nbw_ceil", "tie_split_calls"]),
     "region": ("GenRegion.v", "TieRegion.v", ["tie_getitem", "tie_sec_bounds", "tie_ms_bounds"]),
     "silence": ("GenSilence.v", "TieSilence.v", ["tie_make_silence"]),
@@ -506,7 +508,148 @@ def gen_split(repo):
     return "\n".join(out)
 
 
-GENERATORS = {"split": gen_split, "dur": gen_dur, "region": gen_region, "silence": gen_silence, "buf": gen_buf, "fmt": gen_fmt}
+REG_SELF = {"sr": ("(rate r1)", "Z"), "sw": ("(width r1)", "Z"), "ch": ("(nch r1)", "Z"), "data": ("(rdata r1)", "bytes"),
+            "sampling_rate": ("(rate r1)", "Z"), "sample_width": ("(width r1)", "Z"), "channels": ("(nch r1)", "Z")}
+REG_OTHER = {k: (v[0].replace("r1", "r2"), v[1]) for k, v in REG_SELF.items()}
+
+
+def ret_unit_or_err(tr, v, env, node):
+    if v.ty == "error":
+        return v.text
+    if v.ty == "none":
+        return "Ok tt"
+    bad(node, "procedure returns %s" % v.ty)
+
+
+def ret_bool(tr, v, env, node):
+    if v.ty == "bool":
+        return v.text
+    bad(node, "predicate returns %s" % v.ty)
+
+
+def ret_int(tr, v, env, node):
+    if v.ty == "Z":
+        return v.text
+    bad(node, "returns %s" % v.ty)
+
+
+def gen_algebra(repo):
+    """AudioRegion._check_other_parameters, __add__, __mul__, __eq__, __len__"""
+    core = ast.parse(open(os.path.join(repo, "auditok", "core.py")).read())
+    cls = next(n for n in core.body if isinstance(n, ast.ClassDef) and n.name == "AudioRegion")
+    meths = {}
+    for n in cls.body:
+        if isinstance(n, ast.FunctionDef) and not n.decorator_list:
+            meths.setdefault(n.name, []).append(n)
+    out = list(HEADER)
+    for py, coq, params, ret, extra, rt in (
+            ("_check_other_parameters", "check_params_gen", [("other", "obj")], ret_unit_or_err, ["(r1 r2 : region Z)"], "result unit"),
+            ("__add__", "add_gen", [("other", "obj")], ret_make_region, ["(r1 r2 : region Z)"], "result (region Z)"),
+            ("__mul__", "mul_gen", [("n", "Z")], ret_make_region, ["(r1 : region Z)"], "result (region Z)"),
+            ("__eq__", "eq_gen", [("other", "obj")], ret_bool, ["(r1 r2 : region Z)"], "bool"),
+            ("__len__", "len_gen", [], ret_int, ["(r1 : region Z)"], "Z")):
+        if len(meths.get(py, [])) != 1:
+            raise TranslationError("AudioRegion.%s not found exactly once" % py)
+        sp = Spec(coq, params, ret, self_attrs=dict(REG_SELF))
+        sp.obj_attrs = {"other": REG_OTHER}
+        sp.extra_params = extra
+        sp.ret_type = rt
+        tr_ = Pure(meths[py][0], sp, module=core, cls=cls)
+        text = tr_.translate()
+        # the object-typed parameter is the second region of the signature, not a Coq parameter of its own
+        out.append(text)
+    return "\n".join(out)
+
+
+class FilePure(Pure):
+    """file-backed sources: the stream handle is abstracted as (open?, byte cursor); the stream primitives
+    f.read(n) / wave.readframes(n) are given their documented meaning: at most n bytes / frames from the cursor, everything
+    that is left for None / -1, and the cursor advances by what was returned (modelled by hand, named in the trusted base)"""
+    def expr(self, e, env, binds):
+        if isinstance(e, ast.Attribute) and isinstance(e.value, ast.Name) and e.value.id == "self" and e.attr in ("_audio_stream", "_stream"):
+            return V("handle", "handle")
+        if isinstance(e, ast.Compare) and len(e.ops) == 1 and isinstance(e.ops[0], (ast.Is, ast.IsNot)):
+            a = self.expr(e.left, env, binds)
+            if a.ty == "handle":
+                b = self.expr(e.comparators[0], env, binds)
+                if b.ty != "none":
+                    bad(e, "stream handle compared with something else than None")
+                t = "(negb %s)" % env["self.#open"].text if isinstance(e.ops[0], ast.Is) else env["self.#open"].text
+                return V(t, "bool")
+        return super().expr(e, env, binds)
+
+    def block(self, stmts, env, k):
+        st = stmts[0] if stmts else None
+        call = None
+        if isinstance(st, ast.Assign) and len(st.targets) == 1 and isinstance(st.targets[0], ast.Name) and isinstance(st.value, ast.Call):
+            call = st.value
+        elif isinstance(st, ast.Return) and isinstance(st.value, ast.Call):
+            call = st.value
+        if call is not None and isinstance(call.func, ast.Attribute) and call.func.attr in ("read", "readframes") \
+                and isinstance(call.func.value, ast.Attribute) and isinstance(call.func.value.value, ast.Name) and call.func.value.value.id == "self" \
+                and call.func.value.attr in ("_audio_stream", "_stream") and len(call.args) == 1 and not call.keywords:
+            binds = []
+            n = self.expr(call.args[0], env, binds)
+            pos = env["self.#pos"].text
+            rem = "(zlen (abytes a) - %s)" % pos
+            unit = "1" if call.func.attr == "read" else "(abps a)"
+            if n.ty == "none":
+                want = rem
+            elif n.ty == "Z" and n.has_const and n.const == -1 and call.func.attr == "readframes":
+                want = rem
+            elif n.ty == "Z":
+                want = "(Z.min %s %s)" % (rem, n.text if unit == "1" else "(%s * %s)" % (n.text, unit))
+            else:
+                bad(st, "stream read with an argument of type %s" % n.ty)
+            d = self.new("chunk")
+            env2 = dict(env)
+            np_ = self.new("pos")
+            env2["self.#pos"] = V(np_, "Z")
+            val = V(d, "bytes")
+            if isinstance(st, ast.Assign):
+                env2[st.targets[0].id] = val
+                rest = self.block(stmts[1:], env2, k)
+            else:
+                rest = self.spec.ret(self, val, env2, st)
+            return self.wrap(binds, "(let %s := (zslice (abytes a) %s (%s + %s)) in (let %s := (%s + zlen %s) in %s))" % (d, pos, pos, want, np_, pos, d, rest))
+        return super().block(stmts, env, k)
+
+
+def ret_file_read(tr, v, env, node):
+    st = "(mkF %s %s)" % (env["self.#pos"].text, env["self.#open"].text)
+    if v.ty == "error":
+        return "(%s, OErr %s)" % (st, v.text[4:])
+    if v.ty == "none":
+        return "(%s, ONone)" % st
+    if v.ty == "bytes":
+        return "(%s, OData %s)" % (st, v.text)
+    bad(node, "read returns %s" % v.ty)
+
+
+def gen_fsrc(repo):
+    """FileAudioSource.read with the _read_from_stream of the raw-file, wave-file and standard-input sources inlined"""
+    io_ = ast.parse(open(os.path.join(repo, "auditok", "io.py")).read())
+    base = next(n for n in io_.body if isinstance(n, ast.ClassDef) and n.name == "FileAudioSource")
+    out = list(HEADER)
+    out.append("Section File.\nContext {B : Type}.\n")
+    for cname, coq in (("RawAudioSource", "raw_read_gen"), ("WaveAudioSource", "wave_read_gen"), ("StdinAudioSource", "stdin_read_gen")):
+        sub = next(n for n in io_.body if isinstance(n, ast.ClassDef) and n.name == cname)
+        # method resolution order: the subclass first, then FileAudioSource
+        merged = ast.ClassDef(name=cname, bases=[], keywords=[], body=list(sub.body) + [m for m in base.body if isinstance(m, ast.FunctionDef)
+                                                                                     and m.name not in {x.name for x in sub.body if isinstance(x, ast.FunctionDef)}], decorator_list=[])
+        read = [m for m in merged.body if isinstance(m, ast.FunctionDef) and m.name == "read"]
+        if len(read) != 1:
+            raise TranslationError("%s.read not found exactly once" % cname)
+        sp = Spec(coq, [("size", "Z" if cname == "StdinAudioSource" else "optZ")], ret_file_read, self_attrs={"_sample_size": ("(abps a)", "Z"), "_is_open": ("(fopen s)", "bool")},
+                  state=[("#pos", "(fpos s)", "Z"), ("#open", "(fopen s)", "bool")])
+        sp.extra_params = ["(a : audio B)", "(s : fstate)"]
+        sp.ret_type = "fstate * @out B"
+        out.append(FilePure(read[0], sp, module=io_, cls=merged).translate())
+    out.append("End File.\n")
+    return "\n".join(out)
+
+
+GENERATORS = {"fsrc": gen_fsrc, "algebra": gen_algebra, "split": gen_split, "dur": gen_dur, "region": gen_region, "silence": gen_silence, "buf": gen_buf, "fmt": gen_fmt}
 
 
 def emit_group(repo, group):
